@@ -962,12 +962,24 @@ def special(spec):
                                   and outs[0].slice.lower is None and outs[0].slice.step is None
                                   and src(outs[0].value) == 'self._temperature_swaps'):
             raise Unsupported('temperature_swaps view: ' + '; '.join(src(o) for o in outs))
-        up = tr.expr(outs[0].slice.upper)
+        def inline(node):
+            # `self._helper()` -> the expression its single `return` gives (one level, no arguments)
+            if isinstance(node, ast.Call) and not node.args and not node.keywords and isinstance(node.func, ast.Attribute) \
+                    and src(node.func.value) == 'self':
+                try:
+                    h = find_func(tree, spec.get('cls'), node.func.attr)
+                except Unsupported:
+                    return node
+                body = [b for b in h.body if not (isinstance(b, ast.Expr) and isinstance(b.value, ast.Constant))]
+                if len(body) == 1 and isinstance(body[0], ast.Return) and body[0].value is not None and not h.args.args[1:]:
+                    return body[0].value
+            return node
+        up = tr.expr(inline(outs[0].slice.upper))
         # the acceptance view must use the same count
         fn2 = find_func(tree, spec.get('cls'), 'temperature_acceptance')
         outs2 = [n.value for n in ast.walk(fn2) if isinstance(n, ast.Assign) and src(n.targets[0]) == 'out']
         if len(outs2) != 1 or not isinstance(outs2[0], ast.Subscript) or not isinstance(outs2[0].slice, ast.Slice) \
-                or src(outs2[0].slice.upper) != src(outs[0].slice.upper):
+                or src(inline(outs2[0].slice.upper)) != src(inline(outs[0].slice.upper)):
             raise Unsupported('temperature_acceptance view differs from temperature_swaps')
         return '%s\ndef %s %s : %s :=\n  %s\n' % (head, spec['name'], params, spec['ret'], up)
     if kind == 'stateflow':
@@ -990,6 +1002,14 @@ def special(spec):
                 local_defs[src(st.body[0].targets[0])] = '%s if %s else %s' % (src(st.body[0].value), src(st.test), src(st.orelse[0].value))
                 continue
             if isinstance(st, ast.Return) and src(st.value) == 'state':
+                continue
+            lit = st.value if isinstance(st, (ast.Return, ast.Assign)) and isinstance(st.value, ast.Dict) else None
+            if lit is not None and (isinstance(st, ast.Return) or src(st.targets[0]) == 'state') \
+                    and all(isinstance(kx, ast.Constant) and isinstance(kx.value, str) for kx in lit.keys):
+                # the same keys written as one dictionary literal (entries evaluated in the order written)
+                for kx, vx in zip(lit.keys, lit.values):
+                    v = src(vx)
+                    keys.append((kx.value, local_defs.get(v, v)))
                 continue
             raise Unsupported('statement of Chain.state: ' + src(st).split('\n')[0])
         fn2 = find_func(tree, spec.get('cls'), 'set_state')
